@@ -5,7 +5,7 @@
    an operation list that refers to transactions by position in the universe.
    The result is, per operation, the isOrphan flag of the submission (false
    for the other operations) and the sorted dump of the four maps:
-     pooled ids; (output, creator) of the output index; orphan ids;
+     pooled ids; outputs listed in the output index; orphan ids;
      (output, ids indexed under it).
    Map iteration orders are the identity: the projected dump does not depend
    on them (sets only). *)
@@ -53,11 +53,11 @@ Fixpoint ins_sorted {A} (key : A -> N) (x : A) (l : list A) : list A :=
 Definition sort_by {A} (key : A -> N) (l : list A) : list A :=
   fold_right (ins_sorted key) [] l.
 
-Definition dump := (list N * list (N * N) * list N * list (N * list N))%type.
+Definition dump := (list N * list N * list N * list (N * list N))%type.
 
 Definition dump_state (st : state) : dump :=
   (sort_by (fun x => x) (map fst (pool st)),
-   sort_by fst (utxo st),
+   sort_by (fun x => x) (map fst (utxo st)),
    sort_by (fun x => x) (map fst (orphans st)),
    sort_by fst (map (fun kv => (fst kv, sort_by (fun x => x) (map fst (snd kv)))) (obp st))).
 
@@ -85,7 +85,7 @@ Definition run_case (c0 : list N) (univ : list tx) (ops : list iop) : cres :=
   run_ops univ (init_world c0) ops.
 
 Definition dump_eqb : dump -> dump -> bool :=
-  pair_eqb (pair_eqb (pair_eqb (list_eqb N.eqb) (list_eqb (pair_eqb N.eqb N.eqb)))
+  pair_eqb (pair_eqb (pair_eqb (list_eqb N.eqb) (list_eqb N.eqb))
                      (list_eqb N.eqb))
            (list_eqb (pair_eqb N.eqb (list_eqb N.eqb))).
 
